@@ -132,6 +132,20 @@ func (m *EscrowMonitor) OnTx(h *History, o *TxObs) {
 			}
 			before := redeemable(sh, pa.Escrow.Debonding.Balance.ToBigInt(), pa.Escrow.Debonding.TotalShares.ToBigInt())
 			after := redeemable(psh, qa.Escrow.Debonding.Balance.ToBigInt(), qa.Escrow.Debonding.TotalShares.ToBigInt())
+			// Nothing but rounding can raise it either: the debonding pool earns no rewards, so what one
+			// delegator's claim gains through another account's transaction was taken from that account
+			// (shares minted below the pool's price). Rounding moves less than the worth of one share.
+			if qs := qa.Escrow.Debonding.TotalShares.ToBigInt(); qs.Sign() > 0 {
+				tol := new(big.Int).Div(qa.Escrow.Debonding.Balance.ToBigInt(), qs)
+				tol.Add(tol, big.NewInt(2))
+				if gain := new(big.Int).Sub(after, before); gain.Cmp(tol) > 0 {
+					w := txWitness(h, o)
+					w["escrow"], w["delegator"] = esc.String(), del.String()
+					w["pool_before"] = fmt.Sprintf("balance %s shares %s", pa.Escrow.Debonding.Balance, pa.Escrow.Debonding.TotalShares)
+					w["pool_after"] = fmt.Sprintf("balance %s shares %s", qa.Escrow.Debonding.Balance, qa.Escrow.Debonding.TotalShares)
+					m.Rep.Violation("c15/l2/other-delegators-debonding-value-rose/"+method, fmt.Sprintf("redeemable debonding value of delegator %s in pool %s rose from %s to %s (more than the worth of one share) through a transaction signed by %s: shares were minted below the pool's price", del, esc, before, after, signer), w)
+				}
+			}
 			if after.Cmp(before) < 0 {
 				w := txWitness(h, o)
 				w["escrow"], w["delegator"] = esc.String(), del.String()
